@@ -209,6 +209,20 @@ def run(ctx):
         else:
             cx = ['select', ctx_names[1 + i % (len(ctx_names) - 1)]]
         work.append((text_of(toks), flag, cx))
+    # white-space layouts: the same token sequence with other gaps (also INSIDE the two-word operators IS NOT, NOT IN,
+    # NOT LIKE ...).  Grouping must not depend on the layout; a layout a dialect rejects is not judged.
+    import re as _re
+    multi = _re.compile(r'\b(IS NOT|NOT IN|NOT LIKE|NOT BETWEEN|IS NULL|IS NOT NULL|NOT EXISTS|NOT REGEXP|NOT RLIKE)\b')
+    base_n = len(cases)
+    for i in range(base_n):
+        tag, toks, flag, ev = cases[i]
+        text = text_of(toks)
+        if multi.search(text) or i % (3 if thorough else 9) == 0:
+            for k, gap in enumerate(('  ', '\n\t', ' \n  ')):
+                if k == 2 and not thorough:
+                    continue
+                cases.append((tag + '~layout', toks, flag, ev))
+                work.append((text.replace(' ', gap), flag, ['select']))
     results = pmap(_parse_case, work, chunksize=32)
     n_eval = n_skip = 0
     for (tag, toks, flag, ev), (text, _, cx), rs in zip(cases, work, results):
@@ -220,6 +234,9 @@ def run(ctx):
                 n_skip += 1
                 continue
             n_eval += 1
+            if st != 'ok' and tag.endswith('~layout'):
+                n_skip += 1
+                continue
             if st != 'ok':
                 ctx.violation('rejected:%s:%s' % (d, st),
                               'an expression built only from operators the dialect supports is rejected',
